@@ -412,8 +412,9 @@ def make_ops(cfg):
 
             def spec(ref, x):
                 ref.len_scale = x["isc"] / ref.int_scale_unit()
-                # the setter first assigns the value itself as length scale
-                return [(x["isc"], ">", 0.0)] + ref.all_in_bounds()
+                # the setter first assigns the value itself as length scale (so the value has to be an admissible length scale),
+                # then the resulting length scale is checked like any other assignment
+                return in_bounds(x["isc"], ref.bounds["len_scale"]) + ref.all_in_bounds()
 
             return do, spec
 
@@ -428,6 +429,24 @@ def make_ops(cfg):
             # documented: a value outside the new bounds is replaced by the default (midpoint)
             ref.bounds["var"] = (lo, hi, "cc")
             ref.pending_default = (in_bounds(ref.var, ref.bounds["var"]), lambda r_: r_.set_var((lo + hi) / 2.0))
+            return []
+
+        return do, spec
+
+    @op("bounds_len", [])
+    def _():
+        llo, lhi = 0.25, 4.0
+
+        def do(m, x):
+            m.set_arg_bounds(len_scale=[llo, lhi])  # two-element bounds: closed interval
+
+        def spec(ref, x):
+            ref.bounds["len_scale"] = (llo, lhi, "cc")
+
+            def dflt(r_):
+                r_.len_scale = (llo + lhi) / 2.0
+
+            ref.pending_default = (in_bounds(ref.len_scale, ref.bounds["len_scale"]), dflt)
             return []
 
         return do, spec
@@ -704,7 +723,10 @@ def jobs(tier, seed):
             if cfgname == "tplgau2":
                 seqs += list(itertools.product([n for n in names if n in ("len_scale", "opt_len_low", "var")], repeat=2))
             elif cfgname in QUICK_PAIR_CONFIGS:
-                seqs += list(itertools.product([n for n in names if n != "bounds_anis"], repeat=2))
+                seqs += list(itertools.product([n for n in names if n not in ("bounds_anis", "bounds_len")], repeat=2))
+            # length-scale bounds against every way of changing the length scale (direct, list, integral scale, rescale)
+            if cfgname != "tplgau2":
+                seqs += [("bounds_len", n) for n in names if n in ("len_scale", "len_scale_list", "len_scale_list2", "integral_scale", "rescale")] + [(n, "bounds_len") for n in names if n in ("len_scale", "integral_scale")]
             if "bounds_anis" in names:
                 # list-valued parameter against finite closed bounds (several ratios, only some outside)
                 seqs += [("bounds_anis", n) for n in names if n in ("anis_list", "anis_scalar", "len_scale_list", "len_scale_list2", "len_scale")] + [(n, "bounds_anis") for n in names if n in ("anis_list", "len_scale_list")]
